@@ -8,6 +8,9 @@ use wit_parser::Type;
 pub enum Tok {
     U(u64),
     B(Vec<u8>),
+    /// the echo machine refused to follow a pointer/length pair that does not
+    /// lie inside a live guest allocation
+    Bad(String),
 }
 
 pub fn encode(abi: &Abi, ty: &Type, v: &Val, out: &mut Vec<Tok>) {
@@ -127,6 +130,11 @@ pub fn class_of(abi: &Abi, ty: &Type) -> String {
 
 pub fn decode(abi: &Abi, ty: &Type, r: &mut Reader) -> Result<Val, DecodeError> {
     let inv = |what: String| DecodeError::Invalid { what, class: class_of(abi, ty) };
+    if let Some(Tok::Bad(_)) = r.toks.front() {
+        if let Some(Tok::Bad(m)) = r.toks.pop_front() {
+            return Err(inv(m));
+        }
+    }
     Ok(match abi.shape(ty) {
         Shape::Bool => match r.u()? {
             0 => Val::Bool(false),
